@@ -99,7 +99,11 @@ def check(ctx):
     n, f = c04.table_rule(ctx, 'R03.2', lambda p: bool(TYPING.match(p)), 'the typing functions code generation relies on')
     ctx.floor('R03.2', 'typing functions', f, 20)
     r_cannot_compile(ctx)
+    c04.r_zip(ctx, 'R03.6')
     from . import c06
     c06.panic_rule(ctx, 'R03.3', entries=['TemplateProgram::instantiate', 'CompiledProgram::commit'], what='instantiate/commit')
     from . import c12
     c12.r_instantiate_gate(ctx, 'R03.5')
+    if ctx.tier == 'thorough':
+        from .. import witness
+        witness.run(ctx, 'R03.W', ['W2'])
